@@ -1,0 +1,83 @@
+//go:build verif && (verif_all || verif_c17)
+// +build verif
+// +build verif_all verif_c17
+
+package gocql
+
+// Verification hooks (build tag `verif`) for the event debouncers' part of C17 (eventDebouncer.stop / Session.Close
+// against the flusher goroutine at each of its program points and against debounce() calls). Add-only thin wrappers.
+
+import (
+	"net"
+	"sync/atomic"
+	"time"
+)
+
+// VerifEvDeb is a handle on one eventDebouncer.
+type VerifEvDeb struct {
+	e      *eventDebouncer
+	schema bool
+	calls  *int32
+}
+
+// VerifNewEventDebouncer is newEventDebouncer with a callback that only counts its calls.
+func VerifNewEventDebouncer() *VerifEvDeb {
+	n := new(int32)
+	return &VerifEvDeb{e: newEventDebouncer("verif", func([]frame) { atomic.AddInt32(n, 1) }, nopLogger{}), calls: n}
+}
+
+// VerifSessionEventDebouncers are the session's own node and schema event debouncers.
+func VerifSessionEventDebouncers(s *Session) (node, schema *VerifEvDeb) {
+	return &VerifEvDeb{e: s.nodeEvents}, &VerifEvDeb{e: s.schemaEvents, schema: true}
+}
+
+// Debounce is eventDebouncer.debounce with a harmless frame (what Session.handleEvent does with an EVENT frame): a
+// DOWN status event for an address no host has, resp. a table schema change.
+func (v *VerifEvDeb) Debounce() {
+	if v.schema {
+		v.e.debounce(&schemaChangeTable{change: "UPDATED", keyspace: "verif_ks", object: "t"})
+		return
+	}
+	v.e.debounce(&statusChangeEventFrame{change: "DOWN", host: net.IPv4(10, 9, 9, 9), port: 9042})
+}
+
+// Fire lets time pass until the debounce timer expires: a running timer is made to expire now (true), one that is
+// not running is left alone (false). Timer methods need no lock.
+func (v *VerifEvDeb) Fire() bool {
+	if v.e.timer.Stop() {
+		v.e.timer.Reset(1)
+		return true
+	}
+	return false
+}
+
+// Stop is eventDebouncer.stop.
+func (v *VerifEvDeb) Stop() { v.e.stop() }
+
+// Lock / Unlock take and release the debouncer's mutex (a debounce() call that is slow inside its critical section:
+// parks the flusher's timer branch and every other debounce()).
+func (v *VerifEvDeb) Lock()   { v.e.mu.Lock() }
+func (v *VerifEvDeb) Unlock() { v.e.mu.Unlock() }
+
+// Callbacks is the number of callback invocations so far (only for VerifNewEventDebouncer; -1 otherwise).
+func (v *VerifEvDeb) Callbacks() int {
+	if v.calls == nil {
+		return -1
+	}
+	return int(atomic.LoadInt32(v.calls))
+}
+
+// Buffered is len(e.events), read under the debouncer's mutex (as short a visit as a debounce() call's).
+func (v *VerifEvDeb) Buffered() int {
+	v.e.mu.Lock()
+	defer v.e.mu.Unlock()
+	return len(v.e.events)
+}
+
+// Postpone moves a running debounce timer far into the future (logical time: in a conducted schedule the debounce
+// time passes only when Fire says so, however slow the machine is); a timer that is not running is left alone.
+func (v *VerifEvDeb) Postpone() {
+	if v.e.timer.Stop() {
+		v.e.timer.Reset(time.Hour)
+	}
+}
